@@ -24,7 +24,7 @@ func init() { register(c14{}) }
 
 func (c14) ID() string { return "C14" }
 func (c14) Rule() string {
-	return "history monitor on the real gts binary (built with hooks H1/H2, scratch HOME/XDG_CACHE_HOME/TMPDIR): for each of the 19 cached subcommands a base invocation a and neighbours a' that differ from a in exactly one thing (each boolean option toggled, each valued option changed, each positional changed, the content of a secondary input changed under the same path, the primary input changed, -F switched); histories over one cache directory: [a,a], [a,a',a], [a',a,a',a], [a -o f, a], [a, a -o f, a], with failing inputs [bad,bad], [bad,good,bad], and [a,b,a,b] where b is another subcommand given a's arguments and input (every ordered pair of subcommands), and [a,a,a -o f,a] on a 2.6 MB three-record FASTA stream for clear, reverse, complement, sort. Oracle: every invocation's (output bytes on stdout or in the -o file, exit status) equals the memoised result of the same command with --no-cache in a pristine environment. The H2 event log must show a real cache hit for every command (else inconclusive); the option table is cross-checked against `gts <cmd> --help`. non-trivial: a history whose neighbour references differ (the changed thing matters on that input) or that contains a real hit; distinct: (argv, input digests, history shape). Also: a cache directory that takes no new entry (gts-cache linked to /proc/self), and the entry of a multi-MiB output torn as by a killed writer (zeroed header, half of the stored blocks) before the next identical run. A three-record infix host file and its twin that differs in the last residue of the last record. -F fastq / -F embl next to -F fasta / -F genbank; pairs of FASTA inputs with equal length and equal CRC-32 (IEEE and Castagnoli)."
+	return "history monitor on the real gts binary (built with hooks H1/H2, scratch HOME/XDG_CACHE_HOME/TMPDIR): for each of the 19 cached subcommands a base invocation a and neighbours a' that differ from a in exactly one thing (each boolean option toggled, each valued option changed, each positional changed, the content of a secondary input changed under the same path, the primary input changed, -F switched); histories over one cache directory: [a,a], [a,a',a], [a',a,a',a], [a -o f, a], [a, a -o f, a], with failing inputs [bad,bad], [bad,good,bad], and [a,b,a,b] where b is another subcommand given a's arguments and input (every ordered pair of subcommands), and [a,a,a -o f,a] on a 2.6 MB three-record FASTA stream for clear, reverse, complement, sort. Oracle: every invocation's (output bytes on stdout or in the -o file, exit status) equals the memoised result of the same command with --no-cache in a pristine environment. The H2 event log must show a real cache hit for every command (else inconclusive); the option table is cross-checked against `gts <cmd> --help`. non-trivial: a history whose neighbour references differ (the changed thing matters on that input) or that contains a real hit; distinct: (argv, input digests, history shape). Also: a cache directory that takes no new entry (gts-cache linked to /proc/self), and the entry of a multi-MiB output torn as by a killed writer (zeroed header, half of the stored blocks) before the next identical run. A three-record infix host file and its twin that differs in the last residue of the last record. -F fastq / -F embl next to -F fasta / -F genbank; pairs of FASTA inputs with equal length and equal CRC-32 (IEEE and Castagnoli). Near-twins: the corpus record with CRLF line ends, a feature table differing in the blanks of a quoted value, the 2.6 MB and the 17 MiB input with one residue changed in the middle."
 }
 func (c14) Assumptions() []string {
 	return []string{"the --no-cache run in a pristine environment is the reference (memoised per argv+input digests)", "stderr is not compared", "one gts process at a time per cache directory", "Go toolchain; hooks H1/H2 only observe"}
@@ -212,6 +212,15 @@ func c14Plans() []cmdPlan {
 			ba := stdin(mk(name), "crc-"+tw+"-a.fasta")
 			plans = append(plans, cmdPlan{name, ba, []neighbour{{"primary-input", "another input of the same length and the same CRC-32 (" + tw + ")", stdin(mk(name), "crc-"+tw+"-b.fasta")}}, nil})
 		}
+	}
+	for _, name := range []string{"clear", "reverse"} {
+		plans = append(plans, cmdPlan{name, mk(name), []neighbour{{"primary-input", "the same record with CRLF line ends", stdin(mk(name), "phix-crlf.gb")}}, nil})
+		bb := stdin(mk(name), "big.fasta")
+		plans = append(plans, cmdPlan{name, bb, []neighbour{{"primary-input", "a multi-MiB input that differs in one residue in its middle", stdin(mk(name), "big-middle.fasta")}}, nil})
+	}
+	{
+		b := file(mk("annotate", "feat.tbl"), "feat.tbl", "feat1-blank.tbl")
+		plans = append(plans, cmdPlan{"annotate", b, []neighbour{{"secondary-input", "feature table differing in the blanks inside a quoted value only", file(b, "feat.tbl", "feat1-blanks.tbl")}}, nil})
 	}
 	// format names of one family (what the writer makes of them is its own
 	// business; the cache must keep them apart as long as the outputs differ).
@@ -430,6 +439,13 @@ func (x *c14run) loadInputs() error {
 		"bad-second.gb":        append(append([]byte{}, part...), phix[:len(phix)/2]...),
 		"empty":                {},
 	}
+	// the corpus record with CRLF line ends (the reader keeps the CR inside
+	// multi-line qualifier values, so the outputs differ), a feature table that
+	// differs from feat1 in the blanks inside a quoted value only, and a twin of
+	// the multi-MiB stream that differs in one residue in its middle.
+	x.inputs["phix-crlf.gb"] = bytes.ReplaceAll(phix, []byte("\n"), []byte("\r\n"))
+	x.inputs["feat1-blanks.tbl"] = []byte("     misc_feature    10..40\n                     /note=\"first  one\"\n")
+	x.inputs["feat1-blank.tbl"] = []byte("     misc_feature    10..40\n                     /note=\"first one\"\n")
 	// a host file of three records, and its twin that differs in the last
 	// residue of the last record only (far behind anything a reader has seen
 	// when it finished the first record).
@@ -497,12 +513,32 @@ func (x *c14run) loadInputs() error {
 		}
 	}
 	x.inputs["big.fasta"] = big.Bytes()
+	{
+		tw := append([]byte(nil), big.Bytes()...)
+		for k := len(tw) / 2; k < len(tw); k++ {
+			if tw[k] == 'a' || tw[k] == 'c' {
+				tw[k] = 'g'
+				break
+			}
+		}
+		x.inputs["big-middle.fasta"] = tw
+	}
 	// 17 MiB: the big stream six and a half times over.
 	var huge bytes.Buffer
 	for huge.Len() < 17<<20 {
 		huge.Write(big.Bytes())
 	}
 	x.inputs["huge.fasta"] = huge.Bytes()
+	{
+		tw := append([]byte(nil), huge.Bytes()...)
+		for k := len(tw) / 2; k < len(tw); k++ {
+			if tw[k] == 'a' || tw[k] == 'c' {
+				tw[k] = 'g'
+				break
+			}
+		}
+		x.inputs["huge-middle.fasta"] = tw
+	}
 	return nil
 }
 
@@ -755,6 +791,11 @@ func (m c14) Run(c *fw.Ctx) {
 				a.stdin = "huge.fasta"
 				x.history(p.name, "a,a", "primary-input", "17 MiB on stdin", []inv{a, a}, true)
 				c.Bucket("input:17-MiB")
+				if name == "clear" {
+					a2 := a
+					a2.stdin = "huge-middle.fasta"
+					x.history(p.name, "a,a',a", "primary-input", "17 MiB on stdin; another input of the same length that differs in one residue in its middle", []inv{a, a2, a}, true)
+				}
 			}
 			break
 		}
